@@ -43,7 +43,9 @@ type ConcState struct {
 	fmem map[string]int64
 	// iters: how often each loop header was entered on this path (MaxIter > 0)
 	iters map[*ssa.BasicBlock]int
-	cfg   *ConcCfg
+	// defers: the deferred function literals registered so far on this path, per call depth, in registration order
+	defers map[int][]*ssa.Defer
+	cfg    *ConcCfg
 }
 
 // Step returns the value v stands for on this path (nil: v itself).
@@ -84,7 +86,25 @@ func localCell(a *ssa.Alloc, captured bool) bool {
 		switch x := r.(type) {
 		case *ssa.MakeClosure:
 			if !captured {
-				return false
+				// still fine when the literal is only ever deferred or called on the spot: it is then explored inline
+				if x.Referrers() == nil {
+					return false
+				}
+				for _, r2 := range *x.Referrers() {
+					switch y := r2.(type) {
+					case *ssa.Defer:
+						if y.Call.Value != ssa.Value(x) {
+							return false
+						}
+					case *ssa.Call:
+						if y.Call.Value != ssa.Value(x) {
+							return false
+						}
+					case *ssa.DebugRef:
+					default:
+						return false
+					}
+				}
 			}
 		case *ssa.Store:
 			if x.Addr != ssa.Value(a) {
@@ -114,6 +134,12 @@ func (st *ConcState) clone() *ConcState {
 		n.tup = make(map[*ssa.Call][]ssa.Value, len(st.tup))
 		for k, v := range st.tup {
 			n.tup[k] = v
+		}
+	}
+	if len(st.defers) > 0 {
+		n.defers = make(map[int][]*ssa.Defer, len(st.defers))
+		for k, v := range st.defers {
+			n.defers[k] = v
 		}
 	}
 	if len(st.iters) > 0 {
@@ -306,6 +332,8 @@ type concFrame struct {
 	// iter: the frame of a function literal invoked repeatedly by call's callee; left = further invocations allowed
 	iter *ssa.MakeClosure
 	left int
+	// deferred: the frame of a deferred function literal run by the caller's RunDefers (nothing is bound on return)
+	deferred bool
 }
 
 // ConcPaths explores fn from its entry and returns the distinct event
@@ -353,6 +381,9 @@ func ConcPaths(fn *ssa.Function, cfg ConcCfg) (seqs []string, truncated bool) {
 		}
 		for a, k := range st.fmem {
 			facts = append(facts, "@"+a+"="+strconv.FormatInt(k, 10))
+		}
+		for d, l := range st.defers {
+			facts = append(facts, "defers"+strconv.Itoa(d)+"="+strconv.Itoa(len(l)))
 		}
 		sort.Strings(facts)
 		sb.WriteString(strings.Join(facts, ","))
@@ -531,6 +562,35 @@ func ConcPaths(fn *ssa.Function, cfg ConcCfg) (seqs []string, truncated bool) {
 				}
 			}
 			switch x := in.(type) {
+			case *ssa.Defer:
+				if mk, ok := x.Call.Value.(*ssa.MakeClosure); ok {
+					if f, ok := mk.Fn.(*ssa.Function); ok && len(f.Blocks) > 0 {
+						st = st.clone()
+						if st.defers == nil {
+							st.defers = map[int][]*ssa.Defer{}
+						}
+						d := len(stack)
+						st.defers[d] = append(append([]*ssa.Defer{}, st.defers[d]...), x)
+					}
+				}
+			case *ssa.RunDefers:
+				d := len(stack)
+				if l := st.defers[d]; len(l) > 0 && len(stack) < 5 {
+					df := l[len(l)-1]
+					ns := st.clone()
+					ns.defers[d] = l[:len(l)-1]
+					mk := df.Call.Value.(*ssa.MakeClosure)
+					f := mk.Fn.(*ssa.Function)
+					for bi, b := range mk.Bindings {
+						if bi < len(f.FreeVars) {
+							bind(ns, st, f.FreeVars[bi], b)
+						}
+					}
+					// resume at this same RunDefers: the remaining deferred literals run next
+					nstack := append(append([]concFrame{}, stack...), concFrame{blk: blk, idx: k, deferred: true})
+					run(f.Blocks[0], 0, ev, nstack, ns)
+					return
+				}
 			case *ssa.Alloc:
 				// a fresh variable holds its zero value
 				if localCell(x, cfg.IterClosures) {
@@ -656,6 +716,11 @@ func ConcPaths(fn *ssa.Function, cfg ConcCfg) (seqs []string, truncated bool) {
 					}
 					return
 				}
+				if len(stack) > 0 && stack[len(stack)-1].deferred {
+					top := stack[len(stack)-1]
+					run(top.blk, top.idx, ev, stack[:len(stack)-1], st)
+					return
+				}
 				if len(stack) > 0 {
 					top := stack[len(stack)-1]
 					ns := st.clone()
@@ -726,7 +791,7 @@ func cellOf(st *ConcState, addr ssa.Value) *ssa.Alloc {
 			return nil
 		case *ssa.FreeVar:
 			nx := st.alias[x]
-			if nx == nil || !captured {
+			if nx == nil {
 				return nil
 			}
 			addr = nx
